@@ -164,14 +164,22 @@ pub struct Step {
     /// Drop the call at its k-th real suspension (0 = never).
     #[serde(default)]
     pub abandon_at: u32,
+    /// Drop the call this long (virtual) after it was issued, if it is still waiting at a real
+    /// suspension then (a client that disconnects while the server is working on its request).
+    #[serde(default, skip_serializing_if = "is_zero64")]
+    pub abandon_after_us: u64,
+}
+
+fn is_zero64(v: &u64) -> bool {
+    *v == 0
 }
 
 impl Step {
     pub fn new(op: Op) -> Self {
-        Step { delay_us: 0, op, abandon_at: 0 }
+        Step { delay_us: 0, op, abandon_at: 0, abandon_after_us: 0 }
     }
     pub fn after(delay_us: u64, op: Op) -> Self {
-        Step { delay_us, op, abandon_at: 0 }
+        Step { delay_us, op, abandon_at: 0, abandon_after_us: 0 }
     }
 }
 
